@@ -259,7 +259,9 @@ def run_shard(shard, ctx):
             elif what == "short-pt":
                 blob = R.rsa_encrypt_pkcs1(rng, k.n, k.e, rng.randbytes(rng.randrange(1, 59)))
             elif what == "wrong-magic":
-                f["magic"] = rng.choice([0, 0xBEEE, 0xBEF0, 0xEFBE0000, 0xBEEF0000, rng.getrandbits(32) & ~0xBEEF | 1 << 20])
+                # wrong in the low half, wrong in the high half only (0xNNNNBEEF), byte-swapped, shifted
+                f["magic"] = rng.choice([0, 0xBEEE, 0xBEF0, 0xEFBE0000, 0xBEEF0000, rng.getrandbits(32) & ~0xBEEF | 1 << 20,
+                                         0xDEADBEEF, 0x0001BEEF, 0xBEEFBEEF, 0xFFFFBEEF, (rng.randrange(1, 0x10000) << 16) | 0xBEEF])
                 if f["magic"] == 0xBEEF:
                     continue
                 blob = R.rsa_encrypt_pkcs1(rng, k.n, k.e, R.meta_pack(f, info))
